@@ -209,7 +209,16 @@ func newStreamCodec(rwc io.ReadWriteCloser, f streamEncoding) *streamCodec {
 
 func (c *streamCodec) Encode(ctx context.Context, m *capnp.Message) error {
 	c.wc.setWriteContext(ctx)
-	return c.enc.Encode(m)
+	c.wc.written = 0
+	err := c.enc.Encode(m)
+	if err != nil && c.wc.written > 0 {
+		// Part of the frame is already on the wire (a short write, or a
+		// failure between the header and a segment), so the stream is no
+		// longer at a frame boundary.  The Encoder flattens the error it
+		// got from Write into a string, so report the condition here.
+		return partialWriteError{err}
+	}
+	return err
 }
 
 func (c *streamCodec) Decode(ctx context.Context) (*capnp.Message, error) {
@@ -367,6 +376,10 @@ type ctxWriteCloser struct {
 	io.WriteCloser
 	ctx                 context.Context
 	partialWriteTimeout time.Duration
+
+	// written counts the bytes accepted by the underlying writer since
+	// it was last reset (streamCodec.Encode resets it for each message).
+	written int
 }
 
 // Write bytes to a writer while making a best effort to
@@ -375,6 +388,9 @@ type ctxWriteCloser struct {
 // ignore the Done signal to avoid partial writes.
 func (wc *ctxWriteCloser) Write(b []byte) (int, error) {
 	n, err := wc.write(b)
+	if n > 0 {
+		wc.written += n
+	}
 	if n > 0 && n < len(b) {
 		err = partialWriteError{err}
 	}
